@@ -129,6 +129,20 @@ func main() {
 			fmt.Printf("SELFTEST-WEAK property=%s %s\n", *prop, w)
 		}
 		fmt.Printf("  self-test: %v mutants, %v killed, %v survived, %v skipped\n", st["mutants"], st["killed"], st["survived"], st["skipped"])
+		// behaviour-preserving edits: the property's rules must stay silent
+		bres := runBenignAll(self, *repo, *verif, *oracle, *prop)
+		bc := map[string]int{}
+		for _, b := range bres {
+			bc[b.Status]++
+			if b.Status == "alarm" {
+				fmt.Printf("SELFTEST-FALSE-ALARM property=%s %s: %s\n", *prop, b.ID, b.Detail)
+			}
+			if b.Status == "known-alarm" {
+				fmt.Printf("SELFTEST-KNOWN-LIMITATION property=%s %s: %s\n", *prop, b.ID, b.Detail)
+			}
+		}
+		extra["benign_edits"] = map[string]interface{}{"edits": len(bres), "silent": bc["silent"], "alarm": bc["alarm"], "known_alarm": bc["known-alarm"], "skipped": bc["skipped"], "results": bres}
+		fmt.Printf("  benign edits: %d tried, %d silent, %d alarm, %d known limitation, %d skipped\n", len(bres), bc["silent"], bc["alarm"], bc["known-alarm"], bc["skipped"])
 	}
 	code := v.Emit(*verif+"/evidence", time.Since(start).Seconds(), seed, extra)
 	os.Exit(code)
